@@ -1183,4 +1183,204 @@ theorem lts_burst_done {a : A} {hist : List (HEv ℚ)} {t : ℚ} {p : EvId} {m :
     simp only [toM, mst, ctlOf, visitsOf_snoc, sentOf_snoc, forfKeys_snoc, parkKeys_snoc, setKey_flows ht _ hcF, pktOf,
       Int.sub_eq_add_neg]
 
+/-! ## every burst of `run` is an accepted action of the LTS -/
+
+theorem putIds_noIO {l : List (HEv ℚ)} (h : NoIO l) (hist : List (HEv ℚ)) : putIds (hist ++ l) = putIds hist := by
+  rw [putIds_append, (h.quiet (flow := fun _ => 0) (size := fun _ => 0)).2.2, List.append_nil]
+
+theorem forfKeys_loopEv (H : List (HEv ℚ)) : ∀ (l : List (HEv ℚ)), (∀ ev ∈ l, LoopEv ev) → forfKeys (H ++ l) = forfKeys H
+  | [], _ => by simp
+  | ev :: r, h => by
+    have h1 : forfKeys (H ++ [ev]) = forfKeys H := by
+      rw [forfKeys_snoc]
+      rcases h ev List.mem_cons_self with ⟨c, t, rfl⟩ | ⟨id, t, rfl⟩ <;> rfl
+    have := forfKeys_loopEv (H ++ [ev]) r (fun x hx => h x (List.mem_cons_of_mem _ hx))
+    rw [List.append_assoc, List.singleton_append] at this
+    rw [this, h1]
+
+/-- what a burst of the configuration is for the LTS: the packet in hand is sent at once (`pktResume`), or one action
+(`init`, `wake`, `pktResume`, `sendDone`) whose loop ends as `endM` says -/
+theorem lts_burst {a : A} {hist : List (HEv ℚ)} {q : QEntry ℚ} {en : Entry} (hi : AInv flow F size cfg Lmax P a q.time)
+    (hl : LInv flow a hist) (hst : StartsAt a q en)
+    (hne : (a.burst F (qOf cfg) size cfg.weights P q.time en).fin ≠ .hang) :
+    (∃ g m id, a.run = .H g m id q ∧ a.burst F (qOf cfg) size cfg.weights P q.time en = ⟨a, [], .send m (flow id) id false⟩ ∧
+      ∀ (p : EvId) (q' : QEntry ℚ), MQ.step (DRR.sched cfg) (toM cfg.flows flow size a hist q.time) .pktResume =
+        .ok (toM cfg.flows flow size { a with run := .S p m id q', cur := some id } (hist ++ [.serve id q.time]) q.time, .nothing)) ∨
+    (∃ a1 e0 L act, MidInv F flow size cfg Lmax P a1 q.time ∧ SameBut a a1 ∧ LInv flow a1 (hist ++ e0) ∧ NoIO e0 ∧
+      (∀ ev ∈ L.evs, LoopEv ev) ∧
+      a.burst F (qOf cfg) size cfg.weights P q.time en =
+        ⟨finA a1 L (some (a.burst F (qOf cfg) size cfg.weights P q.time en).fin), e0 ++ L.evs,
+          (a.burst F (qOf cfg) size cfg.weights P q.time en).fin⟩ ∧
+      EndOK size a1.ccnt a1.hol (a1.total F) cfg.weights L (some (a.burst F (qOf cfg) size cfg.weights P q.time en).fin) ∧
+      (∀ p, act ≠ .put p) ∧
+      MQ.step (DRR.sched cfg) (toM cfg.flows flow size a hist q.time) act =
+        withOut .nothing (endM cfg flow size a1 (hist ++ e0) L q.time (a.burst F (qOf cfg) size cfg.weights P q.time en).fin)) := by
+  have ht := hi.table
+  have hQ0 : ∀ c, 0 ≤ qOf cfg c := fun c => by linarith [qOf_ge ht c]
+  cases en with
+  | top =>
+    right
+    obtain ⟨hm, -⟩ := mid_top hi hst
+    have hb : a.burst F (qOf cfg) size cfg.weights P q.time .top =
+        finish a [] (passes (qOf cfg) size a.ccnt a.hol q.time (a.total F) cfg.weights P ⟨a.dfc, []⟩) := rfl
+    have hne' : (passes (qOf cfg) size a.ccnt a.hol q.time (a.total F) cfg.weights P ⟨a.dfc, []⟩).2 ≠ .hang := by
+      rw [hb] at hne; exact hne
+    have hpost := loop_post (t := q.time) hm (⟨a.dfc, []⟩, none) trivial (fun f => le_refl _)
+    have hloop := loopEv_passes (Q := qOf cfg) (size := size) (ccnt := a.ccnt) (hol := a.hol) (t := q.time) (total := a.total F)
+      (ws := cfg.weights) P ⟨a.dfc, []⟩ (by intro ev hev; cases hev)
+    have hpc : pcOf a.run = .top := by rcases hst with h | ⟨g, h⟩ <;> simp [h, pcOf]
+    have hres := lts_burst_top (hist := hist) hm hl hpc hne'
+    have hnil : NoIO ([] : List (HEv ℚ)) := by intro ev hev; cases hev
+    rcases hst with h | ⟨g, h⟩
+    · refine ⟨a, [], _, .init, hm, SameBut.rfl' a, (by simpa using hl), hnil, hloop, (by rw [hb]; rfl),
+        (by rw [hb]; exact hpost.2.1), (by intro p hh; cases hh), ?_⟩
+      rw [hb]
+      simp only [finish, List.append_nil]
+      have hph : (toM cfg.flows flow size a hist q.time).phase = .idle := by simp [toM, mst, phaseOf, h]
+      simp only [MQ.step, hph]
+      rw [hres]
+    · refine ⟨a, [], _, .wake, hm, SameBut.rfl' a, (by simpa using hl), hnil, hloop, (by rw [hb]; rfl),
+        (by rw [hb]; exact hpost.2.1), (by intro p hh; cases hh), ?_⟩
+      rw [hb]
+      simp only [finish, List.append_nil]
+      have hph : (toM cfg.flows flow size a hist q.time).phase = .tokenHanded := by simp [toM, mst, phaseOf, h]
+      simp only [MQ.step, hph]
+      rw [hres]
+  | got m id =>
+    obtain ⟨g, h⟩ := hst
+    have hrun := hi.run
+    rw [h] at hrun
+    obtain ⟨-, -, hcur, hpk, ⟨w, hw⟩, hhol, -⟩ := hrun
+    obtain ⟨rest, hd⟩ := drop_of_getElem? hw
+    have hcF : flow id < F := hpk.1
+    by_cases hle : (Num.ofNat (size id) : ℚ) ≤ a.dfc (flow id)
+    · left
+      refine ⟨g, m, id, h, by simp only [A.burst, hd, hle, if_true], ?_⟩
+      intro p q'
+      have hph : (toM cfg.flows flow size a hist q.time).phase = .pktHanded (flow id) (pktOf flow size id) := by
+        simp [toM, mst, phaseOf, h]
+      have hon : (DRR.sched cfg).onPkt (toM cfg.flows flow size a hist q.time).ctl
+          (view { toM cfg.flows flow size a hist q.time with phase := Phase.running }) (flow id) (pktOf flow size id) =
+          .send true { (toM cfg.flows flow size a hist q.time).ctl with pc := .sent m } := by
+        simp only [DRR.sched, DRR.onPkt, toM, mst, ctlOf, pcOf, h, lookup_flows ht _ hcF, pktOf, classOf_id ht, if_true]
+        rw [if_pos hle]
+      simp only [MQ.step, hph, doPktResume, hon, spawn]
+      simp only [toM, mst, ctlOf, pcOf, phaseOf, h, if_true, visitsOf_snoc, sentOf_snoc, forfKeys_snoc, parkKeys_snoc, Option.map_some]
+    · right
+      obtain ⟨hm, -⟩ := mid_got hi h
+      have hd' : cfg.weights.drop (m + 1) = rest := by
+        have := congrArg List.tail hd
+        simpa [List.tail_drop] using this
+      have hb : a.burst F (qOf cfg) size cfg.weights P q.time (.got m id) =
+          finish { a with hol := upd a.hol (flow id) (some id) } [.park id q.time]
+            (thenPasses (qOf cfg) size a.ccnt (upd a.hol (flow id) (some id)) q.time
+              (A.total F { a with hol := upd a.hol (flow id) (some id) }) cfg.weights P
+              (visitFrom (qOf cfg) size a.ccnt (upd a.hol (flow id) (some id)) q.time (m + 1) rest ⟨a.dfc, []⟩)) := by
+        simp only [A.burst, hd, hle, if_false]
+      have hne' : (thenPasses (qOf cfg) size a.ccnt (upd a.hol (flow id) (some id)) q.time
+          (A.total F { a with hol := upd a.hol (flow id) (some id) }) cfg.weights P
+          (visitFrom (qOf cfg) size a.ccnt (upd a.hol (flow id) (some id)) q.time (m + 1) rest ⟨a.dfc, []⟩)).2 ≠ .hang := by
+        rw [hb] at hne; exact hne
+      have hv := visitFrom_ok (Q := qOf cfg) (size := size) (ccnt := a.ccnt) (hol := upd a.hol (flow id) (some id)) (t := q.time)
+        (total := A.total F { a with hol := upd a.hol (flow id) (some id) }) (ws := cfg.weights) hQ0 rest (m + 1) ⟨a.dfc, []⟩ hd'
+      have hpost := loop_post (t := q.time) hm _ hv.1 hv.2
+      have hloop := loopEv_thenPasses (Q := qOf cfg) (size := size) (ccnt := a.ccnt) (hol := upd a.hol (flow id) (some id))
+        (t := q.time) (total := A.total F { a with hol := upd a.hol (flow id) (some id) }) (ws := cfg.weights) P _
+        (loopEv_visitFrom (Q := qOf cfg) (size := size) (ccnt := a.ccnt) (hol := upd a.hol (flow id) (some id)) (t := q.time)
+          rest (m + 1) ⟨a.dfc, []⟩ (by intro ev hev; cases hev))
+      have hnoio : NoIO [HEv.park id q.time] := by
+        intro ev hev
+        simp only [List.mem_singleton] at hev
+        subst hev
+        exact ⟨fun _ _ h => (nomatch h), fun _ _ h => (nomatch h)⟩
+      have hl1 : LInv flow { a with hol := upd a.hol (flow id) (some id) } (hist ++ [.park id q.time]) := by
+        refine ⟨by rw [putIds_noIO hnoio]; exact hl.keys, by rw [putIds_noIO hnoio]; exact hl.recv, ?_, ?_⟩
+        · intro c' hc'
+          rw [parkKeys_snoc]
+          by_cases hcc : c' = flow id
+          · subst hcc; exact (mem_addKey _ _ _).mpr (Or.inr rfl)
+          · change upd a.hol (flow id) (some id) c' ≠ none at hc'
+            rw [upd_ne _ _ _ _ hcc] at hc'
+            exact (mem_addKey _ _ _).mpr (Or.inl (hl.park c' hc'))
+        · intro c hc
+          rw [forfKeys_snoc] at hc
+          exact hl.forf c hc
+      refine ⟨_, [.park id q.time], _, .pktResume, hm, ⟨rfl, rfl, rfl, rfl, rfl, rfl, rfl, rfl, rfl, rfl⟩, hl1, hnoio, hloop,
+        (by rw [hb]; rfl), (by rw [hb]; exact hpost.2.1), (by intro p hh; cases hh), ?_⟩
+      rw [hb]
+      exact lts_burst_got hi hl h hd hle hm hne'
+  | done m id =>
+    obtain ⟨p, h⟩ := hst
+    have hrun := hi.run
+    rw [h] at hrun
+    obtain ⟨-, -, hcur, hpk, ⟨w, hw⟩, hhol, -⟩ := hrun
+    obtain ⟨rest, hd⟩ := drop_of_getElem? hw
+    have hcF : flow id < F := hpk.1
+    right
+    obtain ⟨hm, -⟩ := mid_done hi h
+    have hd' : cfg.weights.drop (m + 1) = rest := by
+      have := congrArg List.tail hd
+      simpa [List.tail_drop] using this
+    have hb : a.burst F (qOf cfg) size cfg.weights P q.time (.done m id) =
+        finish (a.book size (flow id) id) (bookEvs a (flow id) id q.time)
+          (thenPasses (qOf cfg) size (a.book size (flow id) id).ccnt (a.book size (flow id) id).hol q.time
+            ((a.book size (flow id) id).total F) cfg.weights P (donePiece cfg size (a.book size (flow id) id) q.time m (flow id) rest)) := by
+      simp only [A.burst, hd]
+      rfl
+    have hne' : (thenPasses (qOf cfg) size (a.book size (flow id) id).ccnt (a.book size (flow id) id).hol q.time
+        ((a.book size (flow id) id).total F) cfg.weights P (donePiece cfg size (a.book size (flow id) id) q.time m (flow id) rest)).2 ≠ .hang := by
+      rw [hb] at hne; exact hne
+    have hpieceOK : EndOK size (a.book size (flow id) id).ccnt (a.book size (flow id) id).hol ((a.book size (flow id) id).total F)
+        cfg.weights (donePiece cfg size (a.book size (flow id) id) q.time m (flow id) rest).1
+        (donePiece cfg size (a.book size (flow id) id) q.time m (flow id) rest).2 ∧
+        (∀ f, (a.book size (flow id) id).dfc f ≤ (donePiece cfg size (a.book size (flow id) id) q.time m (flow id) rest).1.dfc f) ∧
+        ∀ ev ∈ (donePiece cfg size (a.book size (flow id) id) q.time m (flow id) rest).1.evs, LoopEv ev := by
+      unfold donePiece
+      have hi1 := innerAt_ok (size := size) (ccnt := (a.book size (flow id) id).ccnt) (hol := (a.book size (flow id) id).hol)
+        (t := q.time) (total := (a.book size (flow id) id).total F) hw ⟨(a.book size (flow id) id).dfc, []⟩
+      have hi2 := innerAt_dfc (size := size) (ccnt := (a.book size (flow id) id).ccnt) (hol := (a.book size (flow id) id).hol)
+        (t := q.time) m (flow id) ⟨(a.book size (flow id) id).dfc, []⟩
+      have hi3 := loopEv_innerAt (size := size) (ccnt := (a.book size (flow id) id).ccnt) (hol := (a.book size (flow id) id).hol)
+        (t := q.time) m (flow id) ⟨(a.book size (flow id) id).dfc, []⟩ (by intro ev hev; cases hev)
+      cases hr : innerAt size (a.book size (flow id) id).ccnt (a.book size (flow id) id).hol q.time m (flow id)
+          ⟨(a.book size (flow id) id).dfc, []⟩ with
+      | mk L' oe =>
+        rw [hr] at hi1 hi2 hi3
+        cases oe with
+        | some e => exact ⟨hi1, fun f => by rw [hi2], hi3⟩
+        | none =>
+          have hv := visitFrom_ok (Q := qOf cfg) (size := size) (ccnt := (a.book size (flow id) id).ccnt)
+            (hol := (a.book size (flow id) id).hol) (t := q.time) (total := (a.book size (flow id) id).total F) (ws := cfg.weights)
+            hQ0 rest (m + 1) L' hd'
+          exact ⟨hv.1, fun f => le_trans (by rw [hi2]) (hv.2 f),
+            loopEv_visitFrom (Q := qOf cfg) (size := size) rest (m + 1) L' hi3⟩
+    have hpost := loop_post (t := q.time) hm _ hpieceOK.1 hpieceOK.2.1
+    have hloop := loopEv_thenPasses (Q := qOf cfg) (size := size) (ccnt := (a.book size (flow id) id).ccnt)
+      (hol := (a.book size (flow id) id).hol) (t := q.time) (total := (a.book size (flow id) id).total F) (ws := cfg.weights) P _
+      hpieceOK.2.2
+    have hnoio := noIO_bookEvs a (flow id) id q.time
+    have hsb := book_same (size := size) a (flow id) id
+    have hl1 : LInv flow (a.book size (flow id) id) (hist ++ bookEvs a (flow id) id q.time) := by
+      refine ⟨by rw [putIds_noIO hnoio, hsb.keys]; exact hl.keys, by rw [putIds_noIO hnoio, hsb.recv]; exact hl.recv, ?_, ?_⟩
+      · intro c' hc'
+        rw [book_hol] at hc'
+        exact mem_parkKeys_append flow hist _ (hl.park c' hc')
+      · intro c hc
+        unfold A.book bookEvs at *
+        by_cases hz : a.ccnt (flow id) + -1 = 0
+        · simp only [if_pos hz] at hc ⊢
+          rw [snoc2, forfKeys_snoc, forfKeys_snoc] at hc
+          simp only at hc
+          have hcne : c ≠ flow id := fun hh => hc ((mem_addKey _ _ _).mpr (Or.inr hh))
+          show upd a.forf (flow id) _ c = 0
+          rw [upd_ne _ _ _ _ hcne]
+          exact hl.forf c (fun hh => hc ((mem_addKey _ _ _).mpr (Or.inl hh)))
+        · simp only [if_neg hz] at hc ⊢
+          rw [forfKeys_snoc] at hc
+          exact hl.forf c hc
+    refine ⟨_, bookEvs a (flow id) id q.time, _, .sendDone, hm, hsb, hl1, hnoio, hloop,
+      (by rw [hb]; rfl), (by rw [hb]; exact hpost.2.1), (by intro p hh; cases hh), ?_⟩
+    rw [hb]
+    exact lts_burst_done hi hl h hd hm hne'
+
 end DRRK
